@@ -58,11 +58,9 @@ func (f *Oneminus) Call(s *slip.Scope, args slip.List, depth int) (result slip.O
 		var z big.Int
 		return (*slip.Bignum)(z.Add((*big.Int)(ta), big.NewInt(-1)))
 	case *slip.Ratio:
-		var z big.Int
-		den := (*big.Rat)(ta).Denom()
-		num := z.Sub((*big.Rat)(ta).Num(), den)
-		(*big.Rat)(ta).SetFrac(num, den)
-		return ta
+		// The difference is a new value, the argument must not change.
+		var z big.Rat
+		return (*slip.Ratio)(z.Sub((*big.Rat)(ta), big.NewRat(1, 1)))
 	case slip.Complex:
 		result = slip.Complex(complex(real(ta)-1.0, imag(ta)))
 	default:
